@@ -5,6 +5,7 @@ package tcell
 import (
 	"bytes"
 	"encoding/base64"
+	"github.com/gdamore/tcell/v2/terminfo"
 )
 
 // C02 — input decoding is independent of read chunking and consumes every byte.
@@ -48,7 +49,48 @@ func hEvsEq(a, b []Event) bool {
 }
 
 func h02Term() string {
-	return []string{"xterm-256color", "linux", "vt220", "screen"}[vsymChoice("term", vsymParam("terms", 1))]
+	return []string{"xterm-256color", "linux", "vt220", "screen", "wy50", "vt52"}[vsymChoice("term", vsymParam("terms", 1))]
+}
+
+// H02_keys: for every built-in terminal description, every key sequence it defines,
+// followed by a symbolic key press, decodes to the same events whether it arrives in
+// one read or split at any point, and nothing is delivered before the sequence is
+// complete (no timeout expiring in between).
+func H02_keys() {
+	ents := terminfo.VerifEntries()
+	ti := ents[vsymChoice("term", len(ents))]
+	vsymNote("term", ti.Name)
+	t1, t2 := hNewTScreen(ti.Name), hNewTScreen(ti.Name)
+	sfx := vsymByte("suffix")
+	vsymAssume(vsymAnd(sfx >= 'a', sfx <= 'z'))
+	seen := map[string]bool{}
+	for _, c := range h03Caps(t1.ti) {
+		if seen[c.seq] || (len(c.seq) == 1 && c.seq[0] == 0x1b) {
+			continue
+		}
+		seen[c.seq] = true
+		s := append([]byte(c.seq), sfx)
+		bufA := &bytes.Buffer{}
+		bufA.Write(s)
+		evA := t1.collectEventsFromInput(bufA, false)
+		restA := append([]byte{}, bufA.Bytes()...)
+		t1.collectEventsFromInput(bufA, true)
+		t1.escaped, t1.buttondn = false, false
+		for k := 1; k < len(s); k++ {
+			bufB := &bytes.Buffer{}
+			bufB.Write(s[:k])
+			evB := t2.collectEventsFromInput(bufB, false)
+			if k < len(c.seq) {
+				vsymAssert(len(evB) == 0, "no event is delivered for an incomplete key sequence before the timeout: "+ti.Name)
+			}
+			bufB.Write(s[k:])
+			evB = append(evB, t2.collectEventsFromInput(bufB, false)...)
+			vsymAssert(hEvsEq(evA, evB), "a key sequence split across two reads gives the same events as in one read: "+ti.Name)
+			vsymAssert(bytes.Equal(restA, bufB.Bytes()), "a key sequence split across two reads leaves the same bytes buffered: "+ti.Name)
+			t2.collectEventsFromInput(bufB, true)
+			t2.escaped, t2.buttondn = false, false
+		}
+	}
 }
 
 // H02_split: one read vs. the same bytes split at any point give the same
